@@ -3,6 +3,7 @@
 package zz_verif
 
 import (
+	"encoding/base64"
 	ipfslog "berty.tech/go-ipfs-log"
 	"berty.tech/go-ipfs-log/enc"
 	"berty.tech/go-ipfs-log/entry"
@@ -13,6 +14,8 @@ import (
 	"berty.tech/go-ipfs-log/io/cbor"
 	"berty.tech/go-ipfs-log/io/jsonable"
 	"github.com/ipfs/go-cid"
+	"github.com/ipfs/go-ipld-cbor/encoding"
+	"github.com/polydawn/refmt/obj/atlas"
 )
 
 // symText: an untrusted text field: absent (""), or 1..max symbolic bytes.
@@ -97,6 +100,13 @@ func exercise(e iface.IPFSLogEntry, normal iface.IPFSLogEntry, prov idp.Interfac
 	vx.Cover("in-a-log")
 }
 
+// rawLink / rawLinks: a links section whose link byte strings are arbitrary (written by the harness's own atlas).
+type rawLink struct{ B []byte }
+type rawLinks struct {
+	Next []rawLink
+	Refs []rawLink
+}
+
 // H_C12_v2: the value the CBOR decoder hands to the repository for a current-format block, with every
 // field independently absent / empty / arbitrary, goes through the repository's conversion; if that
 // reports no error every operation on the resulting entry must be safe. No path may panic.
@@ -107,7 +117,7 @@ func H_C12_v2() {
 	normal, _ := entry.CreateEntryWithIO(ctx, api, ids[0], &entry.Entry{LogID: "X", Payload: []byte("n")}, nil, io)
 	// one group of fields is untrusted at a time (FOCUS), the others hold well-formed defaults; FOCUS=all
 	// varies the structural choices (absent clock / identity / signatures) together
-	focus := vx.Choice("focus", 6)
+	focus := vx.Choice("focus", 7)
 	j := &jsonable.Entry{V: 2, LogID: "X", Key: "0a", Sig: "0b", Next: []cid.Cid{}, Refs: []cid.Cid{}, Payload: "p",
 		Clock: &jsonable.LamportClock{ID: "0c", Time: 1}}
 	switch focus {
@@ -142,6 +152,42 @@ func H_C12_v2() {
 		k, _ := enc.NewSecretbox(linkKeyBytes(3))
 		dec, derr := base.ApplyOptions(&cbor.Options{LinkKey: k}).DecryptLinks(j)
 		vx.Cover("decrypt-links-returned")
+		if derr != nil || dec == nil {
+			vx.Cover("rejected")
+			return
+		}
+		j = dec
+	case 6: // a links section sealed with the shared link key (by any holder of it) whose content is untrusted
+		lb := [][]byte{{}, {0}, {1, 2, 3}, {0, 0x12, 0x20}, nil}[vx.Choice("linkBytes", 5)]
+		at := atlas.MustBuild(
+			atlas.BuildEntry(rawLink{}).UseTag(42).Transform().
+				TransformMarshal(atlas.MakeMarshalTransformFunc(func(l rawLink) ([]byte, error) { return l.B, nil })).
+				TransformUnmarshal(atlas.MakeUnmarshalTransformFunc(func(b []byte) (rawLink, error) { return rawLink{B: b}, nil })).
+				Complete(),
+			atlas.BuildEntry(rawLinks{}).StructMap().
+				AddField("Next", atlas.StructMapEntry{SerialName: "next"}).
+				AddField("Refs", atlas.StructMapEntry{SerialName: "refs"}).
+				Complete(),
+		).WithMapMorphism(atlas.MapMorphism{KeySortMode: atlas.KeySortMode_RFC7049})
+		mar := encoding.NewPooledMarshaller(at)
+		plain, merr := mar.Marshal(rawLinks{Next: []rawLink{{B: lb}}, Refs: []rawLink{}})
+		if merr != nil {
+			panic(merr)
+		}
+		k, _ := enc.NewSecretbox(linkKeyBytes(3))
+		nonce := make([]byte, 24)
+		sealed, serr := k.SealWithNonce(plain, nonce)
+		if serr != nil {
+			panic(serr)
+		}
+		j.EncryptedLinks = base64.StdEncoding.EncodeToString(sealed)
+		j.EncryptedLinksNonce = base64.StdEncoding.EncodeToString(nonce)
+		base, err := cbor.IO(&entry.Entry{}, &entry.LamportClock{})
+		if err != nil {
+			panic(err)
+		}
+		dec, derr := base.ApplyOptions(&cbor.Options{LinkKey: k}).DecryptLinks(j)
+		vx.Cover("sealed-links-decoded")
 		if derr != nil || dec == nil {
 			vx.Cover("rejected")
 			return
